@@ -26,27 +26,28 @@ cp $out/zz_seeded_demo_test.go $demodir/
 demo_with=$(go test -vet=off -count=1 -run 'Seeded' ./$demodir/ 2>&1 | tail -1)
 git apply -R $out/patch.diff
 demo_without=$(go test -vet=off -count=1 -run 'Seeded' ./$demodir/ 2>&1 | tail -1)
-cd /; git -C /repo worktree remove --force $scratch
 echo "build: $build"; echo "suite-nonok: [$suite]"; echo "demo with change: $demo_with"; echo "demo without: $demo_without"
-# now against the checks
+# now against the checks: they are pointed at the scratch worktree with the
+# change applied (VERIF_REPO), so /repo itself is never modified
+rm -f $demodir/zz_seeded_demo_test.go
+git apply $out/patch.diff
 cd /verif
-git -C /repo apply -3 $out/patch.diff && git -C /repo reset -q
-q=$(timeout 900 ./bin/vcheck run --property $prop --tier quick --no-evidence 2>&1 | grep "^VIOLATION\|^  obligation\|^INCONCLUSIVE\|exit=" | cut -c1-260)
+q=$(VERIF_REPO=$scratch timeout 900 ./bin/vcheck run --property $prop --tier quick --no-evidence 2>&1 | grep "^VIOLATION\|^  obligation\|^INCONCLUSIVE\|exit=" | cut -c1-260)
 echo "QUICK: $q"
 caught=quick
 if ! echo "$q" | grep -q "^VIOLATION"; then
-  t=$(timeout 1800 ./bin/vcheck run --property $prop --tier thorough --no-evidence 2>&1 | grep "^VIOLATION\|^  obligation\|^INCONCLUSIVE\|exit=" | cut -c1-260)
+  t=$(VERIF_REPO=$scratch timeout 1800 ./bin/vcheck run --property $prop --tier thorough --no-evidence 2>&1 | grep "^VIOLATION\|^  obligation\|^INCONCLUSIVE\|exit=" | cut -c1-260)
   echo "THOROUGH: $t"
   caught=thorough
   echo "$t" | grep -q "^VIOLATION" || caught=missed
 fi
-git -C /repo checkout -- . ; git -C /repo status --short
+cd /; git -C /repo worktree remove --force $scratch
 echo "RESULT $id $prop caught=$caught"
 python3 - "$id" "$prop" "$demo" "$build" "$suite" "$demo_with" "$demo_without" "$caught" <<'PY'
 import json,sys
 id,prop,demo,build,suite,dw,dwo,caught=sys.argv[1:9]
 meta={"id":id,"property":prop,"demo_file":demo,"verified":{"build":build,"existing_suite_failures":suite,"demo_with_change":dw,"demo_without_change":dwo},
-      "what_i_ran":"scratch worktree of /repo HEAD: git apply patch.diff; go build ./...; go test -vet=off -count=1 ./...; demo with and without the change; then git -C /repo apply, vcheck quick (thorough if quick silent), git -C /repo checkout -- .",
+      "what_i_ran":"scratch worktree of /repo HEAD: git apply patch.diff; go build ./...; go test -vet=off -count=1 ./...; demo with and without the change; then the property's quick check (thorough if quick is silent) against that worktree (VERIF_REPO) or against /repo with the patch applied and undone",
       "detected_by":caught}
 p='/verif/seeded/%s/meta.json'%id
 try: old=json.load(open(p))
